@@ -830,7 +830,18 @@ def check_last_accessed(ctx: Ctx) -> None:
     ctx.floor("5.10-last-accessed", 3)
 
 
+def check_approximation_bypasses_tolerance(ctx: Ctx) -> None:
+    """5.11: linearising by approximation evaluates the discipline at points closer to each other than a tolerance-based
+    cache distinguishes: the cache in use must be made exact (tolerance 0) for the time of the approximation, else
+    every perturbed point is served the nominal outputs and the Jacobian is zero (rule 16.6 of C16)."""
+    from gv.props import c16
+    from gv.props.c12 import _Prefixed
+
+    c16.check_zero_tolerance(_Prefixed(ctx, "5.11-approximation/"))
+
+
 def run(ctx: Ctx) -> None:
+    check_approximation_bypasses_tolerance(ctx)
     check_execute(ctx)
     check_last_accessed(ctx)
     check_hit_untouched(ctx)
